@@ -425,6 +425,7 @@ def shards(tier, seed):
     out += [{'what': 'transform', 'shape': n} for n in list(AB.LINES) + list(AB.QUADS) + list(AB.CUBICS) + list(AB.ARCS)]
     out += [{'what': 'transform', 'shape': n, 'warm': True} for n in list(AB.LINES) + list(AB.QUADS) + list(AB.CUBICS) + list(AB.ARCS)]
     out += [{'what': 'transform', 'shape': n, 'shift': [3.0e5, 2.0e5], 'warm': w} for n in list(AB.QUADS) + list(AB.CUBICS) for w in (False, True)]
+    out += AB.provenance_shards(out, tier, lambda d: d['what'] in ('segment', 'transform') and not d.get('shift') and d.get('scale', 1.0) == 1.0)
     out.append({'what': 'path'})
     out.append({'what': 'joints'})
     if tier == 'thorough':
